@@ -222,3 +222,22 @@ Section set.
     - destruct Hex as (-> & _). apply Hid. exact Hp.
   Qed.
 End set.
+
+(* ---- any sequence of Set calls (in particular any linearization of concurrent callers) ---- *)
+Record set_req := mkSetReq { rq_now : Z; rq_sil : sil; rq_newid : string; rq_size : msil -> Z }.
+Fixpoint run_sets (lim : limits) (ret : Z) (st : gmap string msil) (reqs : list set_req) : gmap string msil :=
+  match reqs with
+  | [] => st
+  | r :: rest => run_sets lim ret (fst (set_sil lim ret (rq_size r) st (rq_now r) (rq_sil r) (rq_newid r))) rest
+  end.
+
+Lemma run_sets_count lim ret reqs : forall (st : gmap string msil),
+  (forall k m, st !! k = Some m -> s_id (m_sil m) = k) ->
+  0 < max_silences lim -> Z.of_nat (size st) <= max_silences lim ->
+  Z.of_nat (size (run_sets lim ret st reqs)) <= max_silences lim.
+Proof.
+  induction reqs as [|r rest IH]; intros st Hid Hm Hsz; [exact Hsz|]. simpl. apply IH.
+  - apply set_ids. exact Hid.
+  - exact Hm.
+  - apply (set_count lim ret (rq_size r) st (rq_now r) (rq_sil r) (rq_newid r) Hid); assumption.
+Qed.
